@@ -53,12 +53,15 @@ def matchParts : List Bytes → Outcome (List Match)
 def frameRangeMatches (s : Bytes) : Outcome (List Match) :=
   matchParts (splitGetline ',' (stripJunk s))
 
+/-- a stepped part has a non-zero step -/
+def stepOk : Match → Bool
+  | .complex _ _ _ n => (atoi n) != some 0
+  | _ => true
+
 /-- `isFrameRange` of fileseq.cpp (with the zero-step test of the D6 fix). -/
 def isFrameRange (s : Bytes) : Outcome Bool :=
   match frameRangeMatches s with
-  | .ok ms => .ok (ms.all fun m => match m with
-      | .complex _ _ _ n => (atoi n) != some 0
-      | _ => true)
+  | .ok ms => .ok (ms.all stepOk)
   | .invalid => .ok false
   | .exc => .exc
 
